@@ -300,7 +300,7 @@ def run(ctx, rec):
     rng = ctx.rng("c04")
     cases = []
     # every (port, kind) sequence up to length L on a single instance
-    L = 3 if ctx.quick else 3
+    L = 3 if ctx.quick else 4
     alphabet = [(p, k) for p in ports_of("single") for k in kinds_for("single", p)]
     seqs = [s for l in range(1, L + 1) for s in itertools.product(alphabet, repeat=l)]
     if ctx.quick:
@@ -323,8 +323,8 @@ def run(ctx, rec):
             model[p] = k
         cases.append(("single", hist + complete("single", model, rng)))
     for kind in ("single", "array", "pair"):
-        for _ in range(400 if ctx.quick else 4000):
-            cases.append((kind, gen_random(rng, kind, 8 if ctx.quick else 12)))
+        for _ in range(400 if ctx.quick else 9600):
+            cases.append((kind, gen_random(rng, kind, 8 if ctx.quick else 16)))
     if ctx.nshards > 1:
         cases = cases[ctx.shard:: ctx.nshards]
     for i, (kind, hist) in enumerate(cases):
